@@ -323,6 +323,13 @@ def structured(rng):
     for _ in range(npre):
         out.append(pre if npre >= 4 and rng.random() < 0.8 else rng.choice([0x66, 0x67, 0xf2, 0xf3, 0xf0, 0x2e, 0x36, 0x3e, 0x26, 0x64, 0x65]))
     k = rng.random()
+    if rng.random() < 0.04:
+        # the wait-prefixed x87 idiom (fstcw / fstsw / fclex / finit are 9B + an escape opcode): a one-byte instruction
+        # directly followed by an escape byte and a ModRM byte of its own
+        out += [0x9b, rng.choice([0xd9, 0xdb, 0xdb, 0xdd, 0xdf, 0xd8]), rng.choice([0xe2, 0xe3, 0xe0, 0x3c, 0x7c, 0x2d, 0xe4, rng.randrange(256)])]
+        for _ in range(rng.randrange(0, 6)):
+            out.append(rng.choice([0x24, 0, 1, 0xff, rng.randrange(256)]))
+        return bytes(out)
     if npre >= 4 and rng.random() < 0.7:
         out += rng.choice([[0xa1], [0x81, 0x84, 0x24], [0x9a], [0xc7, 0x84, 0x24], [0x69, 0x84, 0x24], [0xe8], [0xb8]])
     elif k < 0.6:
@@ -417,5 +424,20 @@ def gen_run(rng):
             if rng.random() < 0.4:
                 op['eof'] = rng.randrange(lo, len(image) + 1)         # truncate-and-reopen
             ops.append(op)
+    if bounds and rng.random() < 0.15:
+        # window probe: a decode 2^k - d bytes before an instruction, then that instruction, on one long-lived stream
+        # (whatever was read ahead, buffered or remembered by the first decode ends d bytes into the second)
+        c = rng.randrange(nclients)
+        for _ in range(rng.choice([1, 2, 3])):
+            b = rng.choice(bounds)
+            ks = [k for k in range(3, 14) if b + 1 - (1 << k) >= 0]
+            if not ks:
+                continue
+            k = rng.choice(ks)
+            d = rng.choice([1, 1, 2, 3])
+            ops.append({'op': 'seek', 'c': c, 'off': max(0, b + d - (1 << k)), 'via': 'set'})
+            ops.append({'op': 'dis', 'c': c})
+            ops.append({'op': 'seek', 'c': c, 'off': b, 'via': rng.choice(['set', 'attr'])})
+            ops.append({'op': 'dis', 'c': c})
     cfg = {'clients': nclients, 'fault_p': fault_p, 'image_len': len(image)}
     return cfg, image.hex(), ops
